@@ -344,6 +344,7 @@ class Case:
         self.pkgname = "p"
         self.destname = "dest"
         self.foreign = {}            # local name of an imported package -> [TSpec] (directory and package of the same name)
+        self.foreign_path = {}       # local name -> import path of a package that is NOT rendered (standard library)
 
     # --- Coq
     def coq_entry(self, e):
@@ -374,9 +375,10 @@ class Case:
         for sp, d in self.dests.items():
             if d[0] == "pkg":
                 destpath = import_base + "/" + d[3]
-        fpaths = {q: import_base + "/" + q for q in self.foreign}
+        fpaths = {q: self.foreign_path.get(q, import_base + "/" + q) for q in self.foreign}
         for q, ts in self.foreign.items():
-            out[q + "/x.go"] = "package %s\n\n" % q + "\n".join(go_tdecl([t]) for t in ts)
+            if q not in self.foreign_path:
+                out[q + "/x.go"] = "package %s\n\n" % q + "\n".join(go_tdecl([t]) for t in ts)
         for f in self.files:
             out["p/" + f.name] = f.go(destpath, fpaths)
         for n, e in self.extra.items():
@@ -515,7 +517,19 @@ def decorate_embeds(rng, c):
         return
     for _ in range(rng.randint(1, 2)):
         f, t = rng.choice(ss)
-        k = rng.choice(["generic", "generic_ptr", "ext_fine", "ext_deep_ptr", "ext_deep"])
+        k = rng.choice(["generic", "generic_ptr", "ext_fine", "ext_deep_ptr", "ext_deep", "blank_inner", "blank_inner"])
+        if k == "blank_inner":
+            # blank and odd field names are skipped at the top level only: promoted ones reach the name transformations
+            if not any(x.name == "Pad" for _, x in c.all_tspecs()):
+                c.files[0].decls.insert(0, ("type", [TSpec("Pad", ("struct", [Field(["_"], ("arrn", ("func",))), Field(["__"], tid("int")),
+                                                                             Field(["pz_"], tid("int"))]))]))
+            if t.name == "Pad" or any(not x.names and core_t(x.typ) == tid("Pad") for x in t.body[1]):
+                continue
+            t.body[1].insert(0, Field([], rng.choice([tid("Pad"), tstar(tid("Pad"))])))
+            c.uncertain.append(t.name)
+            c.uncertain.append("Pad")
+            c.labels.append("embed:" + k)
+            continue
         if k.startswith("generic"):
             if not any(x.name == "Gbox" for _, x in c.all_tspecs()):
                 c.files[0].decls.insert(0, ("type", [TSpec("Gbox", ("struct", [Field(["gv"], tid("T"))]), tparams="[T any]")]))
@@ -1584,6 +1598,24 @@ def a_dup_flags(rng, c):
         insert_flag(rng, c, rng.choice(pool + ["-ver=v9.9.9", "-version=x1", "-sep=false", "-verbose=false"]))
 
 
+HOSTILE_VALUES = ["m(", "*", "[x", "a)", "+", " ", "a b", "a/b", "../x", "\u00fc", "\\", '"', "$(x)", "%s", "{", "?", "-x", "1x", "type",
+                  "^$", "a|b", "'", "`"]
+
+
+def a_hostile_value(rng, c):
+    """a hostile value for one of the string flags of the subcommand"""
+    flags = {"new": ["ver", "version", "tagcase", "type", "file"], "enum": ["ver", "version", "type", "file"],
+             "rest": ["ver", "type", "file"], "map": ["alias", "alias", "to", "path", "way", "ver", "type", "file"]}[c.sub]
+    fl = rng.choice(flags)
+    v = rng.choice(HOSTILE_VALUES)
+    c.args = [a for k, a in enumerate(c.args) if not re.match(r"^--?%s(=|$)" % fl, a)
+              and not (k > 0 and re.match(r"^--?%s$" % fl, c.args[k - 1]))]
+    insert_flag(rng, c, *(["-%s=%s" % (fl, v)] if rng.random() < 0.7 else ["-" + fl, v]))
+    if fl == "alias":
+        c.uncertain += eligible(c)
+    c.labels.append("hostile:-" + fl)
+
+
 def a_enum_gorm(rng, c):
     insert_flag(rng, c, rng.choice(["-gorm", "-gorm=true"]))
     if rng.random() < 0.3:
@@ -1632,7 +1664,7 @@ def a_map_path(rng, c):
 
 
 ARG_DAMAGES = {
-    "common": [a_unknown_flag, a_bad_value, a_missing_arg, a_bad_syntax, a_help, a_no_selection, a_top_level, a_dir_missing,
+    "common": [a_hostile_value, a_hostile_value, a_unknown_flag, a_bad_value, a_missing_arg, a_bad_syntax, a_help, a_no_selection, a_top_level, a_dir_missing,
                a_file_damage, a_type_missing, a_type_missing, a_type_and_file, a_trailing, a_dup_flags],
     "new": [a_bad_value],
     "enum": [a_enum_gorm, a_enum_gorm],
@@ -1841,6 +1873,8 @@ def _gen_case(rng, sub=None, ndamage=None):
         c.flags += ["-sql", "-gorm"]
     if rng.random() < 0.04:
         c.flags.append(rng.choice(["-v", "-verbose"]))
+    if rng.random() < 0.06:
+        c.flags.append(rng.choice(["-r", "-raw"]))       # the render oracle is then unknown to the harness (see below)
     if sub == "map":
         alias = rng.choice([None, None, "dm", "Dom"])
         if alias:
